@@ -7,6 +7,7 @@ import GeonumModel.Lemmas.Exact
 import GeonumModel.Lemmas.FloatTrig
 import GeonumModel.Lemmas.GeonumMag
 import GeonumModel.Lemmas.FloatMetric
+import GeonumModel.Props.C09
 
 set_option linter.unusedSectionVars false
 set_option linter.unusedVariables false
@@ -159,6 +160,43 @@ theorem wedge_total_float {a b : Geonum F} (ha : a.angle.Inv) (hb : b.angle.Inv)
       Angle.Tq (a.wedge b).angle = Angle.Tq a.angle + Angle.Tq b.angle + δ + val (qp : F)
         + (if flt (FloatLike.sin (b.angle.sub a.angle).gradeAngle) (zero : F) then 2 * val (qp : F) else 0) :=
   Geonum.wedge_total_float ha hb
+
+/-- pure real arithmetic behind the Lagrange identity with errors -/
+theorem lagrange_err_real {D W M c s η : ℝ} (hM : 0 ≤ M) (hη : 0 ≤ η) (hcs : c ^ 2 + s ^ 2 = 1) (hc : |c| ≤ 1) (hs : |s| ≤ 1)
+    (hD : |D - M * c| ≤ η) (hW : |W - M * s| ≤ η) : |D ^ 2 + W ^ 2 - M ^ 2| ≤ 2 * η * (2 * M + η) := by
+  have e : D ^ 2 + W ^ 2 - M ^ 2 = (D - M * c) * (D + M * c) + (W - M * s) * (W + M * s) := by
+    have : M ^ 2 = (M * c) ^ 2 + (M * s) ^ 2 := by rw [mul_pow, mul_pow, ← mul_add, hcs, mul_one]
+    rw [this]; ring
+  rw [e]
+  have hMc : |M * c| ≤ M := by rw [abs_mul, abs_of_nonneg hM]; exact mul_le_of_le_one_right hM hc
+  have hMs : |M * s| ≤ M := by rw [abs_mul, abs_of_nonneg hM]; exact mul_le_of_le_one_right hM hs
+  have h1 : |D + M * c| ≤ 2 * M + η := by
+    have : D + M * c = (D - M * c) + 2 * (M * c) := by ring
+    rw [this]; have := abs_add_le (D - M * c) (2 * (M * c)); rw [abs_mul, abs_two] at this; linarith
+  have h2 : |W + M * s| ≤ 2 * M + η := by
+    have : W + M * s = (W - M * s) + 2 * (M * s) := by ring
+    rw [this]; have := abs_add_le (W - M * s) (2 * (M * s)); rw [abs_mul, abs_two] at this; linarith
+  have t1 : |(D - M * c) * (D + M * c)| ≤ η * (2 * M + η) := by
+    rw [abs_mul]; exact mul_le_mul hD h1 (abs_nonneg _) hη
+  have t2 : |(W - M * s) * (W + M * s)| ≤ η * (2 * M + η) := by
+    rw [abs_mul]; exact mul_le_mul hW h2 (abs_nonneg _) hη
+  have := abs_add_le ((D - M * c) * (D + M * c)) ((W - M * s) * (W + M * s))
+  linarith
+
+/-- (B) **the Lagrange identity in rounded arithmetic**: with `D` the computed dot value and `W` the computed wedge magnitude,
+    `D² + W² = (|a||b|)²` to within `2η(2|a||b| + η)`, `η = |a||b|·(1e-10 + 1e-14) + 1e-29` — i.e. about `4e-10` relative -/
+theorem lagrange_float {a b : Geonum F} (ha : a.angle.Inv) (hb : b.angle.Inv) (hma : a.MagDom) (hmb : b.MagDom) :
+    |(val (fmul (fmul a.mag b.mag) (FloatLike.cos (b.angle.geometricSub a.angle).gradeAngle))) ^ 2
+      + (val (fmul (fmul a.mag b.mag) (fabs (FloatLike.sin (b.angle.geometricSub a.angle).gradeAngle)))) ^ 2
+      - (val a.mag * val b.mag) ^ 2|
+      ≤ 2 * (val a.mag * val b.mag * (val (e10 : F) + 1 / 10 ^ 14) + 1 / 10 ^ 29)
+          * (2 * (val a.mag * val b.mag) + (val a.mag * val b.mag * (val (e10 : F) + 1 / 10 ^ 14) + 1 / 10 ^ 29)) := by
+  have hD := C09.dot_value_float ha hb hma hmb
+  have hW := wedge_mag_float ha hb hma hmb
+  have hM : 0 ≤ val a.mag * val b.mag := mul_nonneg hma.2.1 hmb.2.1
+  have he := val_e10_pos (F := F)
+  exact lagrange_err_real hM (by positivity)
+    (by rw [sq_abs]; exact Real.cos_sq_add_sin_sq _) (Real.abs_cos_le_one _) (by rw [abs_abs]; exact Real.abs_sin_le_one _) hD hW
 
 end B
 
